@@ -26,15 +26,27 @@
 //!   configuration value for later clients to clone (observed group `cfg-only`).  Sequentially
 //!   each client's configuration is derived right before it is used (so: used, then modified,
 //!   then used again); with `-par` all configurations and endpoints are built first.
+//!   `<scheme> <urihost> @k new` — `Endpoint::new(ep_k.clone())`: what a generated `connect(dst)` does
+//!   when `dst` already is an `Endpoint` (audit aC15; as found, 0.13.0 replaced the caller's TLS
+//!   configuration there — fixed).  More `<transport>` flags (audit aC15): `-c2` two calls on one
+//!   channel, `-kn` every other `Endpoint` builder method called after `tls_config`, `-bal` (with
+//!   `-native`) a balanced channel over the endpoint (`Channel::balance_list` for even client
+//!   indices, `Channel::balance_channel` for odd ones).  The `Endpoint` constructor (`from_shared`,
+//!   `from_str`, `TryFrom<String>`, `From<Uri>`, `Channel::from_shared`; for `auto` the `dst` type
+//!   handed to `Endpoint::new`) is rotated deterministically per case.
 //! `<ops…>` is the sequence of `ClientTlsConfig` builder calls, in order (may be empty):
 //!   `ca:<ca1|ca2|ica1|junk|broken>`  `cas:<a>+<b>`  `ta:<ca>`  `tas:<a>+<b>` (trust anchors)
 //!   `dom:<good|bad|other|ip|invalid>`  `id:<c1|c2|c1chain|brokencert|nokey>`
-//!   `h2:<0|1>` (assume_http2)  `roots` (with_enabled_roots)
+//!   `h2:<0|1>` (assume_http2)  `roots` (with_enabled_roots)  `kl` (use_key_log)
 //! or the single token `notls` (`Endpoint::from_shared`, no `tls_config` call) or `auto`
 //! (`Endpoint::new`, the entry point generated clients use).
 //! `<alpn>`: `h2` = tonic's own `Server::tls_config`; `plain` = tonic server without TLS;
 //! `none|http11|h2first|h2last|h2only` = hand-rolled tokio-rustls acceptor with that ALPN list.
-//! `<srvops>`: `-` or `+`-joined `ServerTlsConfig` calls after `identity`: `ca:<ca>` `opt:<0|1>` `ico:<0|1>`.
+//! `<srvops>`: `-` or `+`-joined `ServerTlsConfig` calls after `identity`: `ca:<ca>` `opt:<0|1>` `ico:<0|1>` `kl`
+//!   (use_key_log), and among them `Server`-level builder calls around `Server::tls_config`: `pre` (an
+//!   earlier `tls_config` with a configuration WITHOUT client authentication, which the case's own call
+//!   must replace), `lay0` / `lay` (`Server::layer` before / after `tls_config`; `lay` is a tonic
+//!   interceptor layer, so the handler sits behind an `InterceptedService`).
 //!
 //! Also `srvcfg <op>+<op>…`: `Server::builder().tls_config(..)` alone (`ok|err:<class>|panic`).
 //!
@@ -2518,6 +2530,17 @@ fn audit_cases(thorough: bool, rng: &mut Rng, out: &mut Vec<String>) {
         let pos = 3 + rng.below((semi - 3) as u64 + 1) as usize;
         toks.insert(pos, "kl".to_string());
         out.push(toks.join(" "));
+    }
+    // `kl` as the LAST call and in the middle: whatever was configured before it stands
+    for ops in [
+        "ca:ca1 dom:bad kl", "ca:ca1 kl dom:bad", "dom:bad kl ca:ca1", "ca:ca1 dom:good kl", "ca:ca2 kl", "ca:ca1 kl", "kl ca:ca1",
+        "ca:ca1 h2:1 kl", "ca:ca1 h2:1 kl h2:0", "ca:ca1 id:c1 kl", "ca:ca1 id:c2 kl", "ca:ca1 kl id:c1", "ta:ca1 kl", "kl",
+    ] {
+        for (alpn, sops) in [("h2", "-"), ("none", "-"), ("h2", "ca:ca1+kl"), ("h2", "kl+ca:ca1+opt:1"), ("h2", "ca:ca1+opt:1+kl+opt:0")] {
+            for host in ["good", "bad"] {
+                out.push(format!("tls https {} {} ; s1good {} {} {}", host, ops, alpn, sops, rng.pick(&["tcp", "duplex", "duplex-lazy"])));
+            }
+        }
     }
     for ops in ["kl", "id:s1good+kl", "kl+id:s1good+ca:ca1", "id:s1good+ca:junk+kl", "kl+kl+id:nokey"] {
         out.push(format!("srvcfg {}", ops));
